@@ -23,7 +23,7 @@ ANCHORS = ["decaylanguage.utils.particleutils:charge_conjugate_name", "decaylang
 WORKERS = {"quick": 4, "thorough": 16}
 WTESTS = {"groups": ['conj'], "tests": ['tests/decay', 'tests/utils', 'tests/dec/test_dec.py']}
 REQUIRED = {"kind:has-antiparticle": 300, "kind:self-conjugate": 50, "kind:in-table-no-conjugate": 10, "kind:unknown-label": 50,
-            "pdg-route": 500, "multiplicity>=4": 20, "metadata>=2-user-keys": 20, "cross-layer-file": 10, "cross-layer-file-with-copy": 5, "returned-value-mutated-then-again": 50, "cache-cold": 1, "cache-evicting": 1,
+            "pdg-route": 500, "multiplicity>=4": 20, "metadata>=2-user-keys": 20, "cross-layer-file": 10, "cross-layer-file-with-copy": 5, "cross-layer-file-with-sourceless-cdecay:sorting-first": 3, "returned-value-mutated-then-again": 50, "cache-cold": 1, "cache-evicting": 1,
             "C04.name.matches_table_oracle": 1000, "C04.daughters.each_particle_with_multiplicity": 100, "C04.mode.bf_and_metadata_kept": 100}
 EXHAUSTIVE_NOTE = "every EvtGen name and every PDG name of the installed tables is visited by every worker subset union (sharded), both cache states"
 ASSUMPTIONS = ["the csv data tables of the installed particle package are the ground truth for IDs, names and self-conjugacy"]
@@ -137,6 +137,13 @@ def check_file(ctx, mother, lines):
 
     cm = names.conj(mother)
     text = f"Decay {mother}\n" + "".join(f"{bf} {' '.join(ds)} PHSP;\n" for bf, ds in lines) + f"Enddecay\nCDecay {cm}\n"
+    orphan = None
+    if ctx.rng.random() < 0.4:
+        # one more CDecay whose source table does not exist (it adds nothing); names sorting before and after the real one
+        cands = [b for a, b in names.antiparticle_pairs() if a != mother and b != mother and a != cm and b != cm and b.replace("anti-", "") == b]
+        orphan = ctx.rng.choice(cands)
+        text = f"CDecay {orphan}\n" + text
+        ctx.hit("cross-layer-file-with-sourceless-cdecay" + (":sorting-first" if orphan < cm else ""))
     copied = ctx.rng.random() < 0.4
     if copied:      # a copy of the table, conjugated as well (ChargeConj pairs the copy with its declared conjugate)
         ctx.hit("cross-layer-file-with-copy")
